@@ -18,6 +18,7 @@ func init() {
 		Explanation: "C02.1 every write to Allocation.TurnSocket (all are in package allocation) is dominated by GetChannelByAddr(src)!=nil or GetPermission(src)!=nil on the same allocation, where src is result #1 of the same relay ReadFrom (resp. RemoteAddr() of the same accepted connection); " +
 			"C02.2 addTCPConnection in connHandler is guarded likewise for the very connection registered, and on the no-permission edge the connection is closed on every path back to the accept loop; " +
 			"C02.3 dependency slices: FingerprintAddr depends on the IP only, AddrEqual on IP and Port of both arguments (not the zone), GetChannelByAddr selects by AddrEqual(cb.Peer, addr); " +
+			"C02.5 installed addresses do not alias decode storage and C02.6 expiry removes exactly the entry's own key (so an entry is gone after its timeout); " +
 			"C02.4 the destination of those writes is the owner's a.fiveTuple.SrcAddr.",
 		NotCovered: "timing of expiry; 'silently' is covered only as far as C02.1 enumerates every write to the client socket; interleavings between test and write.",
 		Run:        runC02,
@@ -28,6 +29,8 @@ func runC02(c *Ctx) {
 	ruleClientSocketWrites(c, "C02.1", "C02.4")
 	ruleConnHandlerGuard(c, "C02.2")
 	ruleAddrDeps(c, "C02.3")
+	ruleInstalledAddrFresh(c, "C02.5")
+	ruleExpiryRemoves(c, "C02.6")
 }
 
 // srcOfSameInput: v (possibly behind a comma-ok type assertion) is result #1 of an invoke of
